@@ -127,8 +127,13 @@ func universes(thorough bool) []*universe {
 		{"p8080-k1-local2labels", mkSvc(ports(8080), share("k1"), local(map[string]string{"app": "a", "tier": "x"}))},
 		// one port number under two protocols (its UDP half clashes with p80udp-k1, its TCP half with p80-k1)
 		{"p80tcp+udp-k1", mkSvc(ports(80), udp(80), share("k1"))},
+		// keys that differ only in surrounding white space, and (sharing key, backend key) pairs whose concatenations coincide
+		{"p443-kweb", mkSvc(ports(443), share("web"))},
+		{"p8080-kweb-trailing-space", mkSvc(ports(8080), share("web "))},
+		{"p443-k-local-app=x", mkSvc(ports(443), share("k"), local(map[string]string{"app": "x"}))},
+		{"p8080-kapp=xk-cluster", mkSvc(ports(8080), share("app=xk"))},
 	}
-	shareSlotVs := map[int][]int{2: {0, 2, 7, 9, 16, 12}, 1: {0, 1, 2, 3, 4, 5, 6, 7, 8, 9, 10, 11, 12, 14, 15, 17}, 0: {0, 1, 2, 3, 4, 5, 6, 7, 8, 9, 10, 11, 12, 13, 14}}
+	shareSlotVs := map[int][]int{2: {0, 2, 7, 9, 16, 12, 19, 21}, 1: {0, 1, 2, 3, 4, 5, 6, 7, 8, 9, 10, 11, 12, 14, 15, 17, 18, 20}, 0: {0, 1, 2, 3, 4, 5, 6, 7, 8, 9, 10, 11, 12, 13, 14}}
 	if thorough {
 		shareSlotVs = nil
 	}
